@@ -7,7 +7,11 @@ CFG = {
              "shared-exponent -> f32 equal the correctly rounded binary32 of the ideal, including the 16-bit domains "
              "(n16::f32, s16::uf32, fp16::f32: all 65536 inputs kernel-evaluated); every half -> nearest U8 code, every "
              "half -> nearest U16 code except exactly 0x3801..0x3804, which are proved to come out one code high and "
-             "inside the tie tolerance (F14b), likewise R9G9B9E5 (15,257); the pinned 45-format field table is "
+             "inside the tie tolerance (F14b), likewise R9G9B9E5 (15,257); binary32 sources (fp::n8, fp::n16 = "
+             "(x*MAX+0.5) as uN) on ALL 2^32 bit patterns: NaN->0, +-inf saturate, every finite value -> nearest code, "
+             "except exactly 128 (U8) / 32768 (U16) patterns, each the largest float below a tie (2k-1)/(2 MAX), proved to "
+             "come out one code high and inside the tie tolerance (monotone software float + kernel-checked threshold "
+             "tables, Proofs/F32Mono.lean, F32Thr*.lean); the pinned 45-format field table is "
              "well formed; sub-sampled and bi-planar decoding pairs every pixel with the chroma sample of its own cell for "
              "all widths/heights. The model (software binary32, bit-exact) is tied to dds::decode by a differential run "
              "that is exhaustive for <=16-bit pixels and per field for wider ones.",
@@ -15,8 +19,9 @@ CFG = {
             "Uncompressed.lean and specification ConvSpec.lean; the correspondence check (harness, driver, diff); "
             "the 65536-point evaluations of the 16-bit->f32 and half conversions run inside the kernel on an integer "
             "representation of the software float (Proofs/ConvFast*.lean) that is proved equal to the model for all "
-            "arguments, so it adds nothing to the trusted base; not proved in Lean: fp::n8/n16 (2^32 inputs) and YUV "
-            "(sampled tie only); "
+            "arguments, so it adds nothing to the trusted base; the threshold tables of fp::n8/n16 are produced by an "
+            "untrusted script (tools/gen_f32thr.py) and validated entry by entry in the kernel; not proved in Lean: YUV "
+            "(>= 2^24 triples, sampled tie only); "
             "IEEE-754 +,-,*,/ being correctly rounded and evaluated operator by operator in binary32 by rustc/x86-64.",
     "profiles": ["release", "checked"],
     "level": "proof",
